@@ -109,6 +109,31 @@ func misuses() []misuse {
 			k, fq := kid(pkg)
 			return []*spec.Field{spec.FM("a_val", 2, fq).In(1)}, []*spec.Message{k}, nil, []*spec.Oneof{{Name: "pick", HasConfig: true, Discriminator: "zip", Flatten: true}}
 		}),
+		// the colliding sibling may itself sit in a (synthetic or real) oneof
+		one("discriminator-collision-optional-sibling", true, []string{"pick", "kind"}, func(pkg string) ([]*spec.Field, []*spec.Message, []*spec.EnumDef, []*spec.Oneof) {
+			k, fq := kid(pkg)
+			return []*spec.Field{spec.F("kind", 1, spec.String).Opt(), spec.FM("a_val", 2, fq).In(1), spec.F("b_val", 3, spec.String).In(1)}, []*spec.Message{k}, nil, []*spec.Oneof{{Name: "pick", HasConfig: true, Discriminator: "kind"}}
+		}),
+		one("discriminator-collision-other-oneof-member", true, []string{"pick", "kind"}, func(pkg string) ([]*spec.Field, []*spec.Message, []*spec.EnumDef, []*spec.Oneof) {
+			k, fq := kid(pkg)
+			return []*spec.Field{spec.FM("a_val", 2, fq).In(1), spec.F("b_val", 3, spec.String).In(1), spec.F("kind", 4, spec.String).In(2), spec.F("other_alt", 5, spec.Int32).In(2)}, []*spec.Message{k}, nil, []*spec.Oneof{{Name: "pick", HasConfig: true, Discriminator: "kind"}, {Name: "second"}}
+		}),
+		one("oneof-flatten-child-collides-optional-parent", true, []string{"pick", "street", "a_val"}, func(pkg string) ([]*spec.Field, []*spec.Message, []*spec.EnumDef, []*spec.Oneof) {
+			k, fq := kid(pkg)
+			return []*spec.Field{spec.F("street", 1, spec.String).Opt(), spec.FM("a_val", 2, fq).In(1)}, []*spec.Message{k}, nil, []*spec.Oneof{{Name: "pick", HasConfig: true, Discriminator: "kind", Flatten: true}}
+		}),
+		one("oneof-flatten-child-collides-other-oneof-member", true, []string{"pick", "street", "a_val"}, func(pkg string) ([]*spec.Field, []*spec.Message, []*spec.EnumDef, []*spec.Oneof) {
+			k, fq := kid(pkg)
+			return []*spec.Field{spec.FM("a_val", 2, fq).In(1), spec.F("street", 4, spec.String).In(2), spec.F("other_alt", 5, spec.Int32).In(2)}, []*spec.Message{k}, nil, []*spec.Oneof{{Name: "pick", HasConfig: true, Discriminator: "kind", Flatten: true}, {Name: "second"}}
+		}),
+		one("flatten-collision-optional-parent", true, []string{"bad_field", "street"}, func(pkg string) ([]*spec.Field, []*spec.Message, []*spec.EnumDef, []*spec.Oneof) {
+			k, fq := kid(pkg)
+			return []*spec.Field{spec.F("street", 1, spec.String).Opt(), spec.FM("bad_field", 2, fq).With(func(a *spec.Ann) { a.Flatten = spec.B(true) })}, []*spec.Message{k}, nil, nil
+		}),
+		one("flatten-collision-oneof-member-parent", true, []string{"bad_field", "street"}, func(pkg string) ([]*spec.Field, []*spec.Message, []*spec.EnumDef, []*spec.Oneof) {
+			k, fq := kid(pkg)
+			return []*spec.Field{spec.F("street", 1, spec.String).In(1), spec.F("alt", 3, spec.Int32).In(1), spec.FM("bad_field", 2, fq).With(func(a *spec.Ann) { a.Flatten = spec.B(true) })}, []*spec.Message{k}, nil, []*spec.Oneof{{Name: "second"}}
+		}),
 		one("enum-number-with-custom-values", true, []string{"bad_field", "BadEnum"}, func(pkg string) ([]*spec.Field, []*spec.Message, []*spec.EnumDef, []*spec.Oneof) {
 			e := &spec.EnumDef{Name: "BadEnum", Values: []spec.EnumValue{{Name: "BAD_ENUM_UNSPECIFIED", Num: 0}, {Name: "BAD_ENUM_ONE", Num: 1, JSON: spec.S("one")}}}
 			return []*spec.Field{spec.FE("bad_field", 1, "."+pkg+".BadEnum").With(func(a *spec.Ann) { a.EnumEnc = 2 })}, nil, []*spec.EnumDef{e}, nil
